@@ -67,6 +67,8 @@ FIELDS = {
         ("atcoords", ("atcoords",), "tol", 0.51e-10 * ANGSTROM, 1e-15),
         ("title", ("title",), "exact", 0, 0),
         ("atcharges.mulliken", ("atcharges", "mulliken"), "tol", 0.51e-5, 0),
+        ("atcharges.hirshfeld", ("atcharges", "hirshfeld"), "tol", 0.51e-5, 0),
+        ("extra.weights", ("extra", "weights"), "tol", 0.51e-5, 0),
         ("atgradient", ("atgradient",), "tol", 0.51e-10, 0),
         ("atmasses", ("atmasses",), "tol", 0.51e-6 * AMU, 1e-15),
     ],
